@@ -116,13 +116,26 @@ func ruleAdapterRewound(c *Check, p *Program, rule string) {
 			errCell = al
 		}
 	})
-	isRewind := func(in ssa.Instruction) bool {
+	rewindStore := func(in ssa.Instruction) bool {
 		st, ok := in.(*ssa.Store)
 		if !ok || lastField(st.Addr) != "ovWriter.dataPos" {
 			return false
 		}
 		k, isK := constUint(st.Val)
 		return isK && k == 0
+	}
+	isRewind := func(in ssa.Instruction) bool {
+		if rewindStore(in) {
+			return true
+		}
+		// a helper (method of the adapter or of the reader) that rewinds on all its paths
+		if ci, ok := in.(*ssa.Call); ok {
+			if f := staticCallee(ci); f != nil && f.Pkg != nil && f.Pkg.Pkg.Path() == modPath && f != fn && shortFn(f) != "ovWriter.reset" {
+				ok, _ := mustOnAllPaths(p, f, rewindStore, false, 1)
+				return ok
+			}
+		}
+		return false
 	}
 	isErrSet := func(in ssa.Instruction) bool {
 		st, ok := in.(*ssa.Store)
@@ -171,6 +184,76 @@ func ruleAdapterRewound(c *Check, p *Program, rule string) {
 	c.Cond(len(bad) == 0, rule, key, p.InstrPos(resetCall), desc, fmt.Sprintf("%d block(s) walked; every error-free return is preceded by out.dataPos = 0", len(seen)), "an error-free return is reachable with the adapter still pointing into the caller's buffer: "+strings.Join(bad, "; "))
 }
 
+
+// mustOnAllPaths reports whether every path of fn from the entry to a return
+// (success paths only when successOnly: edges on which an error is known to be
+// pending, and returns of a certainly non-nil error, are not followed) executes
+// an instruction satisfying hit, directly or inside a statically resolved
+// module callee that itself does so on every one of its paths (helpers that a
+// refactoring may have extracted). Returns the position of an offending return.
+func mustOnAllPaths(p *Program, fn *ssa.Function, hit func(ssa.Instruction) bool, successOnly bool, depth int) (bool, string) {
+	if fn == nil || len(fn.Blocks) == 0 {
+		return false, "(no body)"
+	}
+	hitOrCall := func(in ssa.Instruction) bool {
+		if hit(in) {
+			return true
+		}
+		if depth <= 0 {
+			return false
+		}
+		if ci, ok := in.(ssa.CallInstruction); ok {
+			if _, isGo := in.(*ssa.Go); isGo {
+				return false
+			}
+			if _, isDefer := in.(*ssa.Defer); isDefer {
+				return false
+			}
+			if f := staticCallee(ci); f != nil && f.Pkg != nil && strings.HasPrefix(f.Pkg.Pkg.Path(), modPath) && f != fn {
+				ok, _ := mustOnAllPaths(p, f, hit, false, depth-1)
+				return ok
+			}
+		}
+		return false
+	}
+	seen := map[*ssa.BasicBlock]bool{}
+	bad := ""
+	var walk func(b *ssa.BasicBlock)
+	walk = func(b *ssa.BasicBlock) {
+		if seen[b] || bad != "" {
+			return
+		}
+		seen[b] = true
+		for _, in := range b.Instrs {
+			if hitOrCall(in) {
+				return
+			}
+			if r, ok := in.(*ssa.Return); ok {
+				if n := len(r.Results); successOnly && n > 0 && isErrorType(r.Results[n-1].Type()) && !mayBeNilErr(r.Results[n-1], r.Block()) {
+					return
+				}
+				bad = p.InstrPos(in)
+				return
+			}
+		}
+		if ifi, ok := b.Instrs[len(b.Instrs)-1].(*ssa.If); ok {
+			for k, s := range b.Succs {
+				a := atomOf(ifi.Cond, k == 0)
+				if successOnly && a.Kind == "errnil" && !a.Val {
+					continue
+				}
+				walk(s)
+			}
+			return
+		}
+		for _, s := range b.Succs {
+			walk(s)
+		}
+	}
+	walk(fn.Blocks[0])
+	return bad == "", bad
+}
+
 // ---------------------------------------------------------------------------
 // R17.8 (also R14.8, R18.8, R02.10): a field that holds a block-sized buffer
 // (it is assigned from BlockSizeIndex.Get somewhere) is assigned a fresh buffer
@@ -217,44 +300,7 @@ func ruleBuffersRefetched(c *Check, p *Program, rule string, owners ...string) {
 				st, ok := in.(*ssa.Store)
 				return ok && lastField(st.Addr) == f && isGetCall(st.Val)
 			}
-			// every path from entry to a return, not taking an err != nil edge, passes the store
-			seen := map[*ssa.BasicBlock]bool{}
-			bad := ""
-			var walk func(b *ssa.BasicBlock)
-			walk = func(b *ssa.BasicBlock) {
-				if seen[b] || bad != "" {
-					return
-				}
-				seen[b] = true
-				for _, in := range b.Instrs {
-					if isStore(in) {
-						return
-					}
-					if r, ok := in.(*ssa.Return); ok {
-						if n := len(r.Results); n > 0 && !mayBeNilErr(r.Results[n-1], r.Block()) {
-							return
-						}
-						bad = p.InstrPos(in)
-						return
-					}
-				}
-				if ifi, ok := b.Instrs[len(b.Instrs)-1].(*ssa.If); ok {
-					for k, s := range b.Succs {
-						a := atomOf(ifi.Cond, k == 0)
-						if a.Kind == "errnil" && !a.Val {
-							continue
-						}
-						walk(s)
-					}
-					return
-				}
-				for _, s := range b.Succs {
-					walk(s)
-				}
-			}
-			if len(initFn.Blocks) > 0 {
-				walk(initFn.Blocks[0])
-			}
+			_, bad := mustOnAllPaths(p, initFn, isStore, true, 2)
 			c.Cond(bad == "", rule, owner+".init#refetches:"+f, p.Pos(initFn.Pos()), "every success path of "+owner+".init assigns "+f+" a buffer obtained from the current frame's BlockSizeIndex.Get (the buffer length is what Write/Read use as the block size)", "store of a Get() result on every success path", "the return at "+bad+" is reachable without assigning "+f+" from BlockSizeIndex.Get: a buffer sized for an earlier frame survives Reset and Apply(BlockSizeOption)")
 		}
 	}
@@ -374,44 +420,7 @@ func ruleStreamFieldsRearmed(c *Check, p *Program, rule string) {
 				return false
 			}
 			allPaths := func(fn *ssa.Function, successOnly bool) (bool, string) {
-				seen := map[*ssa.BasicBlock]bool{}
-				bad := ""
-				var walk func(b *ssa.BasicBlock)
-				walk = func(b *ssa.BasicBlock) {
-					if seen[b] || bad != "" {
-						return
-					}
-					seen[b] = true
-					for _, in := range b.Instrs {
-						if touches(in) {
-							return
-						}
-						if r, ok := in.(*ssa.Return); ok {
-							if n := len(r.Results); successOnly && n > 0 && !mayBeNilErr(r.Results[n-1], r.Block()) {
-								return
-							}
-							bad = p.InstrPos(in)
-							return
-						}
-					}
-					if ifi, ok := b.Instrs[len(b.Instrs)-1].(*ssa.If); ok {
-						for k, s := range b.Succs {
-							a := atomOf(ifi.Cond, k == 0)
-							if successOnly && a.Kind == "errnil" && !a.Val {
-								continue
-							}
-							walk(s)
-						}
-						return
-					}
-					for _, s := range b.Succs {
-						walk(s)
-					}
-				}
-				if len(fn.Blocks) > 0 {
-					walk(fn.Blocks[0])
-				}
-				return bad == "", bad
+				return mustOnAllPaths(p, fn, touches, successOnly, 2)
 			}
 			okI, badI := allPaths(initFn, true)
 			okR, badR := allPaths(resetFn, false)
@@ -674,4 +683,115 @@ func rangesOverChanOfChan(f *ssa.Function) bool {
 		}
 	})
 	return found
+}
+
+// ---------------------------------------------------------------------------
+// R16.3 / R07.8, numeric: the rolling dictionary of dependent frames. The
+// bounds prover runs on Reader.read with the field r.dict tracked as a slice
+// cell (root, offset, length). At the statement that stores append(r.dict, block...)
+// back into r.dict, for every abstract state:
+//   retained:  the new length is >= 65535, or nothing was dropped (the slice that
+//              is appended to is the whole dictionary as first loaded), and in
+//              either case it ends where the old dictionary ended (a suffix);
+//   bounded:   the new length is at most a constant the function compares
+//              against, or the dictionary is exactly the block (old part empty).
+
+func ruleWindowNumeric(c *Check, p *Program, retainRule, boundRule string) {
+	if !bndArch() {
+		return
+	}
+	fn := findFn(c, p, retainRule, "", "Reader.read")
+	if fn == nil {
+		return
+	}
+	var consts []Q
+	allInstrs(fn, func(in ssa.Instruction) {
+		bo, ok := in.(*ssa.BinOp)
+		if !ok {
+			return
+		}
+		switch bo.Op {
+		case token.LSS, token.LEQ, token.GTR, token.GEQ:
+			for _, o := range []ssa.Value{bo.X, bo.Y} {
+				if k, isK := constUint(o); isK && k > 0 {
+					consts = append(consts, qi(int64(k)))
+				}
+			}
+		}
+	})
+	coll := newCollector()
+	nApp := 0
+	hooks := goHooks{noInline: true, onStore: func(g *goProg, a *AbsState, st *ssa.Store) {
+		if lastField(st.Addr) != "Reader.dict" {
+			return
+		}
+		call, isC := st.Val.(*ssa.Call)
+		if !isC || len(call.Call.Args) != 2 {
+			return
+		}
+		if b, isB := call.Call.Value.(*ssa.Builtin); !isB || b.Name() != "append" {
+			return
+		}
+		nApp++
+		d := g.sliceOf(a, call.Call.Args[0])
+		blk := g.sliceOf(a, call.Call.Args[1])
+		N := d.len.Add(blk.len)
+		fk := g.fieldCell(st.Addr)
+		ok0 := "fld:orig:" + fk[len("fld:"):]
+		l0, has := a.vals[ok0+".len"]
+		o0 := a.vals[ok0+".off"]
+		if retainRule != "" {
+			holds := false
+			why := ""
+			if !has {
+				why = "the dictionary as loaded before the update is not known in this state"
+			} else {
+				suffix := a.st.entailsEq(d.off.Add(d.len), o0.Add(l0))
+				whole := a.st.entailsEq(d.len, l0)
+				window := a.st.minGE(N, qi(65535))
+				holds = suffix && (whole || window)
+				if !holds {
+					_, mn := a.st.max(N.Neg())
+					why = fmt.Sprintf("kept part is a suffix of the old dictionary: %v; nothing dropped: %v; new length >= 65535: %v (min new length %s) (state from block %d)", suffix, whole, window, mn.Neg().String(), a.from)
+				}
+			}
+			g.coll.check("retain", "Reader.read#window-retained", g.prog.InstrPos(st), "after a block is appended the dictionary still holds the most recent 65535 bytes of history (or all of it): the kept part is a suffix of the old dictionary and either nothing was dropped or the new length is at least 65535", holds, func() string { return why })
+		}
+		if boundRule != "" {
+			holds := a.st.entailsEq(d.len, linI(0))
+			for _, k := range consts {
+				if a.st.maxLE(N, k) {
+					holds = true
+				}
+			}
+			g.coll.check("bound", "Reader.read#window-bounded", g.prog.InstrPos(st), "the dictionary does not grow with the length of the stream: after the update its length is at most a constant of the trim rule, or it is exactly the last block", holds, func() string {
+				_, mx := a.st.max(N)
+				return fmt.Sprintf("new length %s is not bounded by any threshold of the function and the old part is not empty (max %s, state from block %d): history is kept without limit", N.Str(g.tab), mx.String(), a.from)
+			})
+		}
+	}}
+	lp0 := lpCount
+	res, _, err := analyseGoFunc(p, fn, "Reader.read", nil, hooks, coll)
+	c.LPQ += lpCount - lp0
+	if err != nil {
+		c.TroubleF("Reader.read: %v", err)
+		return
+	}
+	if res.trouble != "" {
+		c.TroubleF("Reader.read: %s", res.trouble)
+	}
+	m := map[string]string{}
+	if retainRule != "" {
+		m["retain"] = retainRule
+	}
+	if boundRule != "" {
+		m["bound"] = boundRule
+	}
+	if emitObls(c, coll, "", m) == 0 {
+		rule := retainRule
+		if rule == "" {
+			rule = boundRule
+		}
+		c.Fail(rule, "Reader.read#window-update", p.Pos(fn.Pos()), "the dictionary update r.dict = append(r.dict, block...) is reached by the analysis", "no such statement reached")
+	}
 }
